@@ -45,11 +45,11 @@ Acyclic(pf) == \A s \in DOMAIN pf : Len(PathToRoot(pf, s)) <= Cardinality(DOMAIN
 \* _add_edge_proof_forest(s1, s2, label): redirect s1 to s2 and reverse the path from s1 to its root
 AddEdge(pf, s1, s2, lab) ==
   LET path == PathToRoot(pf, s1) IN
-  [c \in DOMAIN pf |->
+  TLCEval([c \in DOMAIN pf |->
      IF c = s1 THEN <<s2, lab>>
      ELSE IF \E i \in 1..(Len(path) - 1) : path[i+1][1] = c
           THEN LET i == CHOOSE i \in 1..(Len(path) - 1) : path[i+1][1] = c IN <<path[i][1], path[i+1][2]>>
-          ELSE pf[c]]
+          ELSE pf[c]])
 
 \* ---- one iteration of the loop of _propagate
 RECURSIVE UseFold(_,_,_,_,_,_)
@@ -70,7 +70,7 @@ PropStep(st) ==
       ra == st.rep[a]
       rb == st.rep[b] IN
   IF ra = rb THEN [st EXCEPT !.pend = Tail(@)]
-  ELSE LET rep2 == [c \in DOMAIN st.rep |-> IF InSeq(c, st.cls[ra]) THEN rb ELSE st.rep[c]]
+  ELSE LET rep2 == TLCEval([c \in DOMAIN st.rep |-> IF InSeq(c, st.cls[ra]) THEN rb ELSE st.rep[c]])
            r == UseFold(rep2, st.use[ra], 1, st.lk, st.use[rb], <<>>) IN
        [rep |-> rep2,
         cls |-> [st.cls EXCEPT ![rb] = st.cls[rb] \o st.cls[ra], ![ra] = <<>>],
